@@ -76,15 +76,8 @@ def explore_world(R, fn, bound, ctx, key, judge):
     outcomes = {}
 
     def run(prefix):
-        from ..core import time_limit, CaseTimeout
-        try:
-            with time_limit(20):
-                w = simmpi.run_world(R, fn, prefix)
-        except CaseTimeout as e:
-            # horizon reached: ranks keep issuing collectives without ever finishing (livelock)
-            w = simmpi.World(R, prefix)
-            w.error = simmpi.Deadlock('livelock: %s' % e)
-            return [(1, c) for c in prefix], w
+        # the world has its own deterministic horizon (max scheduling steps => Deadlock('livelock'))
+        w = simmpi.run_world(R, fn, prefix)
         return list(w.points), w
 
     def on_exec(choices, pts, w):
